@@ -33,7 +33,7 @@ pub struct ReportArgs<'a> {
 
 fn load_known(prop: &str) -> Vec<(String, String)> {
     let mut out = vec![];
-    if let Ok(s) = std::fs::read_to_string("/verif/known_findings.json") {
+    if let Ok(s) = std::fs::read_to_string(format!("{}/known_findings.json", crate::root())) {
         if let Ok(v) = serde_json::from_str::<serde_json::Value>(&s) {
             for f in v["findings"].as_array().cloned().unwrap_or_default() {
                 if f["property"].as_str() == Some(prop) {
@@ -120,7 +120,7 @@ pub fn finish(args: ReportArgs, m: MetaView, cases: &[Params], items: &[(usize, 
     let mut inconclusive = 0;
     let mut known_hits: Vec<String> = vec![];
     let mut reported: Vec<String> = vec![];
-    std::fs::create_dir_all("/verif/replays").ok();
+    std::fs::create_dir_all(format!("{}/replays", crate::root())).ok();
     let is_known = |label: &str| known.iter().any(|(st, m)| st == "open" && label.contains(m.as_str()));
     let mut replayed = 0u64;
     for (k, f) in failures.iter() {
@@ -157,7 +157,7 @@ pub fn finish(args: ReportArgs, m: MetaView, cases: &[Params], items: &[(usize, 
             continue;
         }
         violations += 1;
-        let path = format!("/verif/replays/{prop}-{}.json", violations);
+        let path = format!("{}/replays/{prop}-{}.json", crate::root(), violations);
         let rj = json!({
             "property": prop, "order": order, "seed": seed, "params": p.to_json(), "case": results[*k].desc,
             "symbolic_failure": {"label": f.label, "detail": f.detail},
@@ -179,7 +179,7 @@ pub fn finish(args: ReportArgs, m: MetaView, cases: &[Params], items: &[(usize, 
             continue;
         }
         violations += 1;
-        let path = format!("/verif/replays/{prop}-conc-{}.json", violations);
+        let path = format!("{}/replays/{prop}-conc-{}.json", crate::root(), violations);
         let order = match suite.as_str() {
             "frost-p256" => "p256",
             "frost-secp256k1" => "secp256k1",
